@@ -122,6 +122,8 @@ VARIANTS: list[Variant] = [
     V("C11-d", "C11", "R6", "src/ramses_tx/transport.py", "        elapsed, self._timestamp = timestamp - self._timestamp, timestamp\n", "        elapsed = timestamp - self._timestamp\n", "the MQTT refill stamp is never advanced"),
     V("C12-d", "C12", "R5", "src/ramses_rf/system/zones.py", "            _LOGGER.debug(\"Promoted a Zone: %s (%s)\", self.id, self.__class__)\n\n            self._setup_discovery_cmds()\n", "            _LOGGER.debug(\"Promoted a Zone: %s (%s)\", self.id, self.__class__)\n", "zone promotion no longer rebuilds the probe table"),
     V("C13-d", "C13", "R2", "src/ramses_rf/entity_base.py", "        if (domain_id or zone_idx) and msg_dict.get(idx) != val:\n            return None  # the (latest) msg is for another domain/zone: value is unknown\n", "        assert (not domain_id and not zone_idx) or (\n            msg_dict.get(idx) == val\n        ), f\"{msg_dict} < Coding error: key={idx}, val={val}\"\n", "reversal of the F29 fix"),
+    V("C13-f", "C13", "R5", "src/ramses_rf/device/heat.py", "            if isinstance(msg.payload, list):  # the circuit setpoints (not a single dict)\n                self._setpoints = msg\n", "            self._setpoints = msg\n", "reversal of the F32 fix"),
+    V("C13-g", "C13", "R5", "src/ramses_rf/system/heat.py", "            k: v.payload.get(\"heat_demand\")  # may be a fault, i.e. heat_demand_fault\n", "            k: v.payload[\"heat_demand\"]\n", "reversal of the F31 fix"),
     V("C13-e", "C13", "R4", "src/ramses_rf/dispatcher.py", "        and this.src == prev.src\n", "        and this.src.type == prev.src.type\n", "array fragments merged across devices of the same type"),
     V("C14-c", "C14", "R7", "src/ramses_rf/system/heat.py", "            for k, v in self._heat_demands.items()\n            if not v._expired\n", "            for k, v in self._heat_demands.items()\n", "reversal of the F26 fix in System.heat_demands"),
     V("C14-d", "C14", "R5", "src/ramses_rf/entity_base.py", "            msg = max(msgs) if msgs else None", "            msg = msgs[0] if msgs else None", "first-found instead of newest among several codes"),
